@@ -617,6 +617,20 @@ impl Supports {
             w: WritePlan { chunk: Chunk::Unbounded, eintr: vec![], fault: None, vectored: false }, r: ReadPlan { chunk: Chunk::Unbounded, eintr: vec![], fault: None } }
     }
 
+    /// Clustered data (dense stretches between sparse ones): the one data class in which select support mixes short
+    /// and long superblocks, and keeps mixing them over the whole vector. A short history of enable / write / load.
+    pub fn generate_clustered(rng: &mut Rng) -> Supports {
+        let k = *rng.pick(&[64u32, 128]);
+        let invert = rng.chance(1, 3);
+        let len = rng.range_usize(400_000, 2_000_000);
+        let all = [SupOp::EnableSelect, SupOp::EnableSelectZero, SupOp::EnablePredSucc, SupOp::RoundTrip, SupOp::RoundTrip, SupOp::Clone];
+        let n = rng.range_usize(2, 5);
+        let mut ops: Vec<SupOp> = (0..n).map(|_| *rng.pick(&all)).collect();
+        ops.push(SupOp::RoundTrip);
+        Supports { c: Content { len, pat: crate::content::Pat::Clustered(k, invert), salt: rng.next() & 0xFFFF }, route: rng.below(2) as u8, initial: *rng.pick(&[2u8, 4, 6, 7]), ops,
+            w: WritePlan { chunk: Chunk::Unbounded, eintr: vec![], fault: None, vectored: false }, r: ReadPlan { chunk: Chunk::Unbounded, eintr: vec![], fault: None } }
+    }
+
     pub fn generate(rng: &mut Rng, max_bits: usize) -> Supports {
         let len = if rng.chance(1, 60) { rng.range_usize(83_521, 200_000) } else { match rng.below(8) { 0 => 0, 1 => rng.range_usize(1, 70), 2 => rng.range_usize(4000, 4200).min(max_bits), 3 => rng.range_usize(8100, 8300).min(max_bits), _ => crate::content::gen_len(rng, max_bits) } };
         let mut c = Content::generate(rng, len);
@@ -632,6 +646,7 @@ impl Supports {
         let mut out = Outcome::default();
         out.stats.evaluations = 1;
         out.stats.probe_if(self.c.len > 1 << 32, "bitvector of more than 2^32 bits with select support written and loaded");
+        out.stats.probe_if(matches!(self.c.pat, crate::content::Pat::Clustered(..)), "clustered bitvector (select support with short and long superblocks interleaved) written and loaded");
         out.stats.probe_if(self.c.len > 1 << 30 && self.c.len < 1 << 32, "bitvector of more than 2^30 bits with rank support written and loaded");
         let v = |clause: &str, site: &str, msg: String| Violation::new(prop, clause, site, msg);
         let built = catch(|| {
